@@ -259,10 +259,10 @@ def parseLabel (j : Json) : Except String (Sys.Label Int String) := do
   | "sdJoinThread" => pure (.sdJoinThread b) | "sdJoinThreadRaise" => pure (.sdJoinThreadRaise b)
   | "sdJoinQueue" => pure (.sdJoinQueue b) | "sdFinish" => pure (.sdFinish b)
   | "rGet" => pure .rGet | "rDecideReady" => pure .rDecideReady | "rDecidePark" => pure .rDecidePark
-  | "rForward" => pure .rForward | "rFailDep" => pure .rFailDep | "rAck" => pure .rAck
+  | "rForward" => pure .rForward | "rFailDep" => pure .rFailDep | "rFailSet" => pure .rFailSet | "rAck" => pure .rAck
   | "rScanFwd" => pure (.rScanFwd k) | "rScanFail" => pure (.rScanFail k)
   | "rBeginSd" => pure .rBeginSd | "rStopAck" => pure .rStopAck | "rJoinExit" => pure .rJoinExit
-  | "dGet" => pure .dGet | "dPrune" => pure .dPrune | "dLaunch" => pure .dLaunch | "dAck" => pure .dAck
+  | "dGet" => pure .dGet | "dPrune" => pure (.dPrune k) | "dLaunch" => pure .dLaunch | "dAck" => pure .dAck
   | "dJoinThread" => pure .dJoinThread | "dJoinThreadRaise" => pure .dJoinThreadRaise
   | "dStopAck" => pure .dStopAck | "dJoinExit" => pure .dJoinExit
   | "wBoot" => pure (.wBoot k) | "wGet" => pure (.wGet k) | "wSrn" => pure (.wSrn k)
